@@ -220,7 +220,7 @@ PUNCT = [",", ",,", "#", "$", "%", "'", "\"", "[", "]", "[]", "<", ">", "+", "-"
 MUTATIONS = ["del_label", "del_mn", "del_op", "dup_op", "swap", "empty_op_keep_space", "unterminated", "stray",
              "stray_front", "reg_replace", "out_of_range", "dup_label", "undef_label", "bad_mnemonic", "trailing_comma",
              "leading_comma", "double_op", "no_newline", "case", "div_zero", "filename_operand", "brackets", "only_label",
-             "sym_in_list"]
+             "sym_in_list", "long_symbol"]
 
 
 def mutate(stmts, rng):
@@ -284,6 +284,11 @@ def mutate(stmts, rng):
         s["op"] = rng.choice(["[", "]", "[]", "[[L1]]", "[,]", "[,X", ",X]", "[L1,PCR", "[,PCR]", "[A,]", "[,--]"])
     elif m == "only_label":
         s["mn"], s["op"] = "", ""
+    elif m == "long_symbol":
+        sym = "".join(rng.choice("ABCDEFGHIJKLMNOPQRSTUVWXYZ0123456789") for _ in range(rng.choice([9, 24, 40, 64, 120])))
+        s["op"] = rng.choice(["", "#", "<", "[", ""]) + sym + rng.choice(["", "!", ".", "?", "+", "_X", ",PCR", "+1", "]"])
+        if rng.chance(0.3):
+            s["label"] = sym[:rng.choice([8, 24, 40])]
     elif m == "sym_in_list":
         s["mn"] = rng.choice(["FCB", "FDB"])
         s["op"] = rng.choice(["L1,2", "1,L1", "E1,E2", "1,,2", ",1", "1,", "'A,'B", "$GG,1", "-1,-2", "256,1", "1,70000"])
